@@ -289,4 +289,84 @@ def deepJoin (sk : Kind) (k : Nat) : (n : Nat) → Ght n → Ght n → Ght n
   | 0, a, b => valProduct sk k a b
   | n + 1, a, b => Ght.ofKids (keyedJoin (deepJoin sk k n) a.kids b.kids)
 
+/-! ## COLT: a forest of tries of increasing height, `ColtGet::get` -/
+
+/-- `get_mut(k)` + `f` on the child -/
+def modChild {α : Type} (k : Key) (f : α → α) : List (Key × α) → List (Key × α)
+  | [] => []
+  | (k', c) :: rest => if k' = k then (k', f c) :: rest else (k', c) :: modChild k f rest
+
+/-- apply a (height-polymorphic) update to the node reached by `path` -/
+def modAt (f : (j : Nat) → Ght j → Ght j) : (n : Nat) → List Key → Ght n → Ght n
+  | n, [], t => f n t
+  | 0, _ :: _, t => t
+  | n + 1, k :: p, t => Ght.ofKids (modChild k (modAt f n p) t.kids)
+
+/-- the node reached by `path`, if any -/
+def nodeAt : (n : Nat) → List Key → Ght n → Option ((j : Nat) × Ght j)
+  | n, [], t => some ⟨n, t⟩
+  | 0, _ :: _, _ => none
+  | n + 1, k :: p, t => (t.kids.lookup k).bind (nodeAt n p)
+
+/-- the tuples of the *leaf* reached by `path` (nothing if the path does not end in a leaf) -/
+def leafRowsAt : (n : Nat) → List Key → Ght n → List Row
+  | 0, [], t => t.toLeaf.rows
+  | 0, _ :: _, _ => []
+  | _ + 1, [], _ => []
+  | n + 1, k :: p, t =>
+    match t.kids.lookup k with
+    | some c => leafRowsAt n p c
+    | none => []
+
+/-- `force_drain` on the leaf the cursor points to -/
+def drainF : (j : Nat) → Ght j → Ght j
+  | 0, _ => Ght.ofLeaf ⟨[], true⟩
+  | _ + 1, t => t
+
+/-- `ColtGetTail::merge`: `head.merge_node(forced)` on the `GhtInner<Head, GhtLeaf>` node -/
+def mergeF (sk : Kind) (forced : Ght 1) : (j : Nat) → Ght j → Ght j
+  | 0, t => t
+  | 1, t => (gmerge sk 1 t forced).1
+  | _ + 2, t => t
+
+/-- `first.children.entry(head.clone()).or_default()` -/
+def ensureF (h : Key) : (j : Nat) → Ght j → Ght j
+  | 0, t => t
+  | j + 1, t => Ght.ofKids (upsert h (gempty j) (fun c => (c, ())) t.kids).1
+
+/-- `ColtType!(c1, …, cm)`: tries of height `0 … m` (key = first `i` columns), all over the
+column-multiset storage.  Only indices `≤ m` are meaningful. -/
+structure Forest where
+  m : Nat
+  tries : (i : Nat) → Ght i
+
+def Forest.empty (m : Nat) : Forest := ⟨m, gempty⟩
+
+/-- rows are inserted into the first (leaf) trie: `forest.0.insert(row)` -/
+def Forest.insert (F : Forest) (row : Row) : Forest :=
+  ⟨F.m, fun i => match i with
+    | 0 => (ginsert .bag 0 0 (F.tries 0) row).1
+    | j + 1 => F.tries (j + 1)⟩
+
+/-- One `ColtGet::get(cursor, head)` where the cursor sits at `path` (`path.length < m`):
+the leaf at `path` in the trie of height `|path|` is force-drained into a height-1 node, which
+is `merge_node`d into the node at `path` of the next trie; then every taller trie gets a
+(possibly empty) child for `head` at `path`. -/
+def coltGet (F : Forest) (path : List Key) (h : Key) : Forest :=
+  let d := path.length
+  let forced : Ght 1 := gnewFrom .bag 1 d (leafRowsAt d path (F.tries d))
+  ⟨F.m, fun i =>
+    if i = d then modAt drainF i path (F.tries i)
+    else if i = d + 1 then modAt (ensureF h) i path (modAt (mergeF .bag forced) i path (F.tries i))
+    else if d + 1 < i then modAt (ensureF h) i path (F.tries i)
+    else F.tries i⟩
+
+/-- chained gets from the root cursor along `path` (each step at the prefix walked so far) -/
+def coltGets (F : Forest) (path : List Key) : Forest :=
+  (path.foldl (fun (acc : Forest × List Key) h => (coltGet acc.1 acc.2 h, acc.2 ++ [h])) (F, [])).1
+
+/-- all rows of the forest -/
+def Forest.rows (F : Forest) : List Row :=
+  (List.range (F.m + 1)).flatMap fun i => grows i (F.tries i)
+
 end HvGht
